@@ -200,9 +200,20 @@ def plan_C10(b, tier, seed):
     if tier != "quick": cs += ["sw13_0_4", "sw23_1_16", "sw31_1_29", "te29_1_2", "te29_2_3", "sw61_0_2", "te61_1_7", "sw_f7_2_a1"]
     return [A_ser(b, c, "point") for c in cs] + [A_ser(b, c, "field") for c in cs[:4]]
 
-PLANS = {"C09": plan_C09, "C10": plan_C10, "C11": plan_C11, "C19": plan_C19, "C07": plan_C07, "C08": plan_C08, "C03": plan_C03, "C04": plan_C04, "C12": plan_C12, "C01": plan_C01, "C02": plan_C02, "C15": plan_C15}
+def A_msm(b, cfg, mode, length, workers=6):
+    return lambda: toy_replay(b, "msm", "MC_Msm", cfg, mode, workers=workers, env_extra={"LEN": str(length)}, emits_all=False,
+                              label="A:msm:%s:%s:len%d" % (cfg, mode, length))
+def plan_C05(b, tier, seed):
+    if tier == "quick":
+        return [A_msm(b, "sw13_1_4", "acc", 4), A_msm(b, "te13_1_7", "acc", 4), A_msm(b, "sw13_0_2", "acc", 3),
+                A_msm(b, "sw13_1_4", "oneshot", 0), A_msm(b, "te13_1_7", "oneshot", 0), A_msm(b, "sw13_0_2", "oneshot", 0), A_msm(b, "sw_f7_2_a0", "oneshot", 0)]
+    return [A_msm(b, c, "acc", 5, 8) for c in ("sw13_1_4", "te13_1_7", "sw13_0_2", "sw19_0_8", "te29_1_3")] + \
+           [A_msm(b, c, "oneshot", 0, 8) for c in SW_TOY + TE_TOY + ["sw_f7_2_a0", "sw_f7_2_a1"]]
+
+PLANS = {"C05": plan_C05, "C09": plan_C09, "C10": plan_C10, "C11": plan_C11, "C19": plan_C19, "C07": plan_C07, "C08": plan_C08, "C03": plan_C03, "C04": plan_C04, "C12": plan_C12, "C01": plan_C01, "C02": plan_C02, "C15": plan_C15}
 
 RULES = {
+ "C05": "A: MsmMachine over Z_r explored by TLC with the conservation invariant (result + buffered = everything added) on every state; EVERY history New(kind, cap); Add^n; Finalize with n <= LEN over bases {O, G, 2G, -G} (repeated and identity bases) x scalars {0, 1, r-1} x every capacity 0..LEN+1 x {Chunked, HashMap} is replayed on the real accumulators over toy curves; every pair of base/scalar vectors of length <= 3 (mismatched lengths included) and patterned vectors of length 31, 32, 33, 100 through msm (checked), msm_unchecked, msm_bigint, msm_chunks and - through the verification hook - both private bucket methods (the plain one is otherwise unreachable)",
  "C09": "A: for toy curves over fields with 4, 6, 7 and 8-bit moduli (so 4, 2, 1, 0 spare bits in the top byte; 2-bit and 1-bit flags that fit exactly or spill into an extra byte) and over F_{7^2}: every field element x every flag kind x every flag value: bytes and advertised size; EVERY byte string of the encoded length, one shorter and one longer (<= 2 bytes): decoding outcome, decoded value, flag and bytes consumed (TLC proves Decode.Encode = id and, for field elements, Encode.Decode = id on the specification); every curve point x compressed/uncompressed through affine and rescaled projective serializers and an exact-size buffer",
  "C10": "A: EVERY byte string of length 0..size (<= 2 bytes) offered as compressed / uncompressed encoding with validation on and off, on toy curves with cofactor 1, 2, 4, 8, 18, 20, 36 (so most decodable points lie outside the subgroup) and x-coordinates without a root: error vs Ok, the decoded point, panics; with validation the returned point must be on the curve and in the prime-order subgroup",
  "C11": "A: EVERY element of toy fields (p = 3 mod 4: 7,11,31; two-adicity 2..8: 13,17,97,193,257; F_{p^2}, F_{p^3} with configured constants, F_{p^4}, F_{p^6} = 2 over 3) through sqrt / sqrt_in_place (relation: a root is returned exactly for squares and squares back), legendre (Euler criterion by norm descent, checked by TLC against the existence of a root); exhaustive traces over F_12289 and F_40961 (two-adicity 12, 13); B: shipped fields and the zoo (two-adicity up to 47; Goldilocks 32) with squares, non-squares and boundary values",
@@ -221,9 +232,11 @@ def _glv_outside(mm, params):
     e = mm.get("event") or {}
     return mm.get("cfg") in params.get("cfgs", []) and e.get("op") == "mul" and e.get("outside") is True
 PREDICATES = {"glv_mul_outside_subgroup": _glv_outside}
-HOOK_COMMITS = []
+HOOK_COMMITS = ["b2d3621", "63ec7b9", "7c991e8"]
 NOT_APPLICABLE = {}
 META = {
+ "C05": {"text": "The accumulators are modelled as state machines with the flush rule of the code and a history variable; TLC checks conservation and 'finalize returns the history' in every reachable state and every complete behaviour is replayed on ChunkedPippenger / HashMapPippenger of real toy curves (short Weierstrass, twisted Edwards, base field F_{p^2}). One-shot MSMs are defined as sum k_i d_i in Z_r and compared with the group element (sum) * G.",
+         "note": "Bases are multiples of the generator with known discrete logarithms. Scalars are canonical field elements (msm_bigint documents that precondition). Full-size MSM (window sizes above 3, lengths 2^10+) is exercised by C14's parallel/serial comparison against the same definition."},
  "C09": {"text": "Codec defines the encodings as total functions between values and byte sequences (size formula, flag placement, sign conventions from the field's order); TLC checks the round-trip and uniqueness theorems on the specification and emits the expected outcome for every value and every byte string of toy configurations; the harness requires the real serializers (all entry points, affine and projective, exact-size buffers) to produce exactly those bytes, sizes, values, flags and consumed lengths.",
          "note": "Exhaustive over byte strings up to 2 bytes (toy moduli up to 8 bits; F_{7^2}); full-size fields and the ZCash-format override of curves/bls12_381 are covered by trace validation when vh-curves is built (see DESIGN)."},
  "C10": {"text": "Deserialize is specified as a total function: error, or the point the bytes denote, and with validation only points of the prime-order subgroup (defined as r.P = O on the specification's own group law). TLC enumerates every byte string and predicts the outcome; panics or reading past the advertised size are violations.",
